@@ -165,6 +165,7 @@ pub open spec fn apply_writes(f: Seq<u8>, ws: Seq<(int, Seq<u8>)>) -> Seq<u8> de
     if ws.len() == 0 { f } else { write_at(apply_writes(f, ws.drop_last()), ws.last().0, ws.last().1) }
 }
 pub open spec fn in_write(w: (int, Seq<u8>), p: int) -> bool { w.0 <= p < w.0 + w.1.len() }
+pub open spec fn covered(ws: Seq<(int, Seq<u8>)>, p: int) -> bool { exists|k: int| 0 <= k < ws.len() && in_write(#[trigger] ws[k], p) }
 pub open spec fn disjoint_writes(ws: Seq<(int, Seq<u8>)>) -> bool {
     &&& forall|k: int| 0 <= k < ws.len() ==> (#[trigger] ws[k]).0 >= 0
     &&& forall|j: int, k: int| 0 <= j < ws.len() && 0 <= k < ws.len() && j != k ==>
@@ -178,6 +179,8 @@ pub proof fn lemma_disjoint_writes(f: Seq<u8>, ws: Seq<(int, Seq<u8>)>, bound: i
         apply_writes(f, ws).len() >= f.len(),
         forall|k: int, p: int| 0 <= k < ws.len() && #[trigger] in_write(ws[k], p) ==>
             p < apply_writes(f, ws).len() && apply_writes(f, ws)[p] == ws[k].1[p - ws[k].0],
+        // frame: a byte of the initial image that no write covers is still there
+        forall|p: int| 0 <= p < f.len() && !#[trigger] covered(ws, p) ==> apply_writes(f, ws)[p] == f[p],
     decreases ws.len()
 {
     if ws.len() > 0 {
@@ -195,6 +198,16 @@ pub proof fn lemma_disjoint_writes(f: Seq<u8>, ws: Seq<(int, Seq<u8>)>, bound: i
                 assert(w0[k] == ws[k]);
                 assert(in_write(w0[k], p));
             }
+        }
+        assert forall|p: int| 0 <= p < f.len() && !#[trigger] covered(ws, p) implies apply_writes(f, ws)[p] == f[p] by {
+            assert(!in_write(ws[last], p));
+            if covered(w0, p) {
+                let k = choose|k: int| 0 <= k < w0.len() && in_write(#[trigger] w0[k], p);
+                assert(w0[k] == ws[k]);
+                assert(in_write(ws[k], p));
+                assert(false);
+            }
+            assert(g[p] == f[p]);
         }
     }
 }
@@ -217,10 +230,10 @@ pub proof fn lemma_par_disjoint(data: Seq<Seq<u8>>, off: int, total: int, a: int
     lemma_plan_state(data, off, total, a);
     lemma_bw_mono(data, off, total, a + 1, b);
 }
-pub proof fn lemma_par_output(data: Seq<Seq<u8>>, off: int, total: int, sigma: Seq<int>)
+pub proof fn lemma_par_output(f: Seq<u8>, data: Seq<Seq<u8>>, off: int, total: int, sigma: Seq<int>)
     requires plan_ok(data, off, total), is_perm(sigma, data.len() as int),
     ensures
-        apply_writes(Seq::<u8>::empty(), par_writes(data, off, total, sigma)) == pieces(data, off, total, data.len() as int),
+        apply_writes(f, par_writes(data, off, total, sigma)) == write_at(f, 0, pieces(data, off, total, data.len() as int)),
 {
     let n = data.len() as int;
     let ws = par_writes(data, off, total, sigma);
@@ -237,9 +250,8 @@ pub proof fn lemma_par_output(data: Seq<Seq<u8>>, off: int, total: int, sigma: S
         let a = sigma[j]; let b = sigma[k];
         if a < b { lemma_par_disjoint(data, off, total, a, b); } else { lemma_par_disjoint(data, off, total, b, a); }
     }
-    let e = Seq::<u8>::empty();
-    lemma_disjoint_writes(e, ws, w);
-    let out = apply_writes(e, ws);
+    lemma_disjoint_writes(f, ws, w);
+    let out = apply_writes(f, ws);
     let tgt = pieces(data, off, total, n);
     lemma_pieces_len(data, off, total, n);
     assert forall|p: int| 0 <= p < w implies p < out.len() && out[p] == tgt[p] by {
@@ -252,8 +264,14 @@ pub proof fn lemma_par_output(data: Seq<Seq<u8>>, off: int, total: int, sigma: S
         assert(in_write(ws[k], p));
     }
     if w > 0 { assert(out[w - 1] == tgt[w - 1]); assert(w - 1 < out.len()); }
-    assert(out.len() == w);
-    assert(out =~= tgt);
+    assert(out.len() == max_int(f.len() as int, w));
+    assert forall|p: int| w <= p < f.len() implies out[p] == f[p] by {
+        if covered(ws, p) {
+            let k = choose|k: int| 0 <= k < ws.len() && in_write(#[trigger] ws[k], p);
+            assert(false);
+        }
+    }
+    assert(out =~= write_at(f, 0, tgt));
 }
 pub proof fn lemma_par_disjoint_len(data: Seq<Seq<u8>>, off: int, total: int, a: int)
     requires plan_ok(data, off, total), 0 <= a < data.len(),
@@ -269,12 +287,23 @@ pub proof fn lemma_plan_output(data: Seq<Seq<u8>>, off: int, total: int, sigma: 
         let w = min_int(total, sum_len(data, n) - off);
         &&& 0 <= w && off + w <= cat(data, n).len()
         &&& pieces(data, off, total, n) == cat(data, n).subrange(off, off + w)
-        &&& apply_writes(Seq::<u8>::empty(), par_writes(data, off, total, sigma)) == cat(data, n).subrange(off, off + w)
+        &&& forall|f: Seq<u8>| #[trigger] apply_writes(f, par_writes(data, off, total, sigma)) == write_at(f, 0, cat(data, n).subrange(off, off + w))
         &&& range_in_plan(data, off, total) ==> w == total
     }),
 {
     let n = data.len() as int;
     lemma_plan_state(data, off, total, n);
     lemma_pieces_slice(data, off, total, n);
-    lemma_par_output(data, off, total, sigma);
+    assert forall|f: Seq<u8>| #[trigger] apply_writes(f, par_writes(data, off, total, sigma)) == write_at(f, 0, cat(data, n).subrange(off, off + min_int(total, sum_len(data, n) - off))) by {
+        lemma_par_output(f, data, off, total, sigma);
+    }
+}
+// consecutive writes through one writer == one write of the concatenation
+pub proof fn lemma_write_at_append(f: Seq<u8>, o: int, a: Seq<u8>, b: Seq<u8>)
+    requires o >= 0,
+    ensures write_at(write_at(f, o, a), o + a.len(), b) == write_at(f, o, a + b),
+{
+    if a.len() == 0 { assert(a + b =~= b); }
+    else if b.len() == 0 { assert(a + b =~= a); }
+    else { assert(write_at(write_at(f, o, a), o + a.len(), b) =~= write_at(f, o, a + b)); }
 }
